@@ -241,8 +241,10 @@ def _records_report(ctx: Ctx) -> Report:
 
     @hypothesis.seed(ctx.subseed("records"))
     @settings(max_examples=n, database=None, deadline=None, phases=[Phase.generate], suppress_health_check=list(HealthCheck))
-    @given(c17.batch_cases(), st.integers(0, 1000))
-    def test(case, selector):
+    @given(c17.batch_cases(), st.integers(0, 1000), st.lists(st.sampled_from([0, 0, 1, 250, 999]), min_size=8, max_size=8))
+    def test(case, selector, micros):
+        # Record.timestamp is a TZAwareMicros: give some records a sub-millisecond part (copy/pickle must keep it)
+        case = {**case, "records": [{**r, "us": micros[i % 8] if r["ts_ms"] < 253402300799000 else 0} for i, r in enumerate(case["records"])]}
         from kio.records.readers import read_batch
         from kio.records.writers import write_batch
 
